@@ -93,6 +93,15 @@ fn run_one(spec: &Spec, prefix: &[f64], tail: &[f64], t: usize) -> Result<Vec<Op
 }
 
 fn check(spec: &Spec, prefixes: &[Vec<f64>], t: usize, st: &mut Stats, sink: &Sink) {
+    check_unit(spec, prefixes, t, 1.0, st, sink)
+}
+
+/// `unit` scales the tails only: with unit = 2^-70 the prefixes are in ordinary units and the common
+/// tail is a moving signal some twenty decades smaller. A self-normalised indicator has no scale, so
+/// it must follow that tail as it follows any other once the prefix has decayed below it (the horizon
+/// is sized for that); an absolute threshold on a scale-free quantity freezes the output at whatever
+/// the prefix left behind.
+fn check_unit(spec: &Spec, prefixes: &[Vec<f64>], t: usize, unit: f64, st: &mut Stats, sink: &Sink) {
     st.configs += 1;
     let (pole, mult, w) = dynamics(spec);
     let r = pole.sqrt();
@@ -102,8 +111,10 @@ fn check(spec: &Spec, prefixes: &[Vec<f64>], t: usize, st: &mut Stats, sink: &Si
         h.extend((0..upto.min(200)).map(|k| tail[k % tail.len()]));
         h
     };
-    for tail in TAILS {
-        let xmax = tail.iter().fold(1.0f64, |m, x| m.max(x.abs()));
+    for tail0 in TAILS {
+        let scaled: Vec<f64> = tail0.iter().map(|x| x * unit).collect();
+        let tail: &[f64] = &scaled;
+        let xmax = tail0.iter().fold(1.0f64, |m, x| m.max(x.abs()));
         // A normalising view fed by an inner view whose output dies out on this tail divides
         // rounding residue by rounding residue (0/0 by construction): such (chain, tail) pairs
         // carry no meaning and are skipped, decided on the stand-alone inner view.
@@ -117,7 +128,10 @@ fn check(spec: &Spec, prefixes: &[Vec<f64>], t: usize, st: &mut Stats, sink: &Si
                 }
             }
         }
-        let base = match run_one(spec, &[], tail, t) {
+        // (tiny unit: the reference stream starts in ordinary units too - a stream that is tiny throughout
+        // would hide an output frozen from the very first step)
+        let base_prefix: &[f64] = if unit == 1.0 { &[] } else { &[2.0, -1.0] };
+        let base = match run_one(spec, base_prefix, tail, t) {
             Ok(b) => b,
             Err(m) => {
                 sink.push(Violation::new("C09", spec, "panicked", "f64", &history(&[], tail, 60), format!("{} (in a {}-step run of this tail)", m, t)));
@@ -125,7 +139,7 @@ fn check(spec: &Spec, prefixes: &[Vec<f64>], t: usize, st: &mut Stats, sink: &Si
             }
         };
         for p in prefixes {
-            let out = if p.is_empty() {
+            let out = if p.is_empty() && unit == 1.0 {
                 base.clone()
             } else {
                 match run_one(spec, p, tail, t) {
@@ -156,12 +170,13 @@ fn check(spec: &Spec, prefixes: &[Vec<f64>], t: usize, st: &mut Stats, sink: &Si
                 }
             }
             st.out(Some(sup));
-            if sup > (1.0 + 1e-6) * sup_q + 1e-12 {
+            // (with a tiny unit the normaliser is still catching up over the first quarter)
+            if unit == 1.0 && sup > (1.0 + 1e-6) * sup_q + 1e-12 {
                 sink.push(Violation::new("C09", spec, "bound-grows-with-length", "f64", &history(p, tail, 200), format!("sup|out| over the first {} tail steps is {:e} but over {} steps it is {:e}: the bound grows with the stream length", t / 4, sup_q, t, sup)));
                 return;
             }
             // (b) fading memory against the empty prefix
-            if p.is_empty() {
+            if p.is_empty() && unit == 1.0 {
                 continue;
             }
             // value-like outputs must agree to 1e-9 of the input scale; self-normalised
@@ -169,11 +184,17 @@ fn check(spec: &Spec, prefixes: &[Vec<f64>], t: usize, st: &mut Stats, sink: &Si
             let scale = if normalising(spec.kind) { 1e3 } else { xmax };
             let deltas: Vec<Option<f64>> = out.iter().zip(base.iter()).map(|(a, b)| a.zip(*b).map(|(a, b)| (a - b).abs())).collect();
             let dmax = deltas.iter().flatten().fold(0.0f64, |m, d| m.max(*d));
+            if let Some(k) = (t / 2..t).find(|k| out[*k].is_some() != base[*k].is_some()) {
+                sink.push(Violation::new("C09", spec, "fading-memory", "f64", &history(p, tail, 200), format!("streams with prefix {:?} and with prefix {:?} share the tail {:?}*; {} tail steps after they merged one reports {:?} and the other {:?}", p, base_prefix, tail, k, out[k], base[k])));
+                return;
+            }
             for (k, d) in deltas.iter().enumerate() {
                 let Some(d) = d else { continue };
                 st.oracle_evals += 1;
                 let start = w + p.len();
-                let env = if k >= start { c * dmax * r.powi((k - start) as i32) } else { f64::INFINITY };
+                // (tiny unit: the difference of two ratios stays O(1) until the normaliser has decayed from
+                // the prefix's scale to the tail's, so only agreement over the second half is required)
+                let env = if k >= start && unit == 1.0 { c * dmax * r.powi((k - start) as i32) } else { f64::INFINITY };
                 if *d > env + 1e-12 * scale || (k >= t / 2 && *d > 1e-9 * scale) {
                     sink.push(Violation::new(
                         "C09",
@@ -182,7 +203,7 @@ fn check(spec: &Spec, prefixes: &[Vec<f64>], t: usize, st: &mut Stats, sink: &Si
                         "f64",
                         &history(p, tail, 200),
                         format!(
-                            "streams with prefix {:?} and with no prefix share the tail {:?}*; {} tail steps after they merged their outputs still differ by {:e} (largest difference {:e}; geometric envelope with rate sqrt(pole {:.6}) allows {:e}; {:e} required from step {})",
+                            "streams with prefix {:?} and with the reference prefix share the tail {:?}*; {} tail steps after they merged their outputs still differ by {:e} (largest difference {:e}; geometric envelope with rate sqrt(pole {:.6}) allows {:e}; {:e} required from step {})",
                             p, tail, k, d, dmax, pole, env, 1e-9 * scale, t / 2
                         ),
                     ));
@@ -332,6 +353,20 @@ pub fn run(ctx: &Ctx) -> CheckOutput {
                     check_spikes(&spec, &mut st, &sink);
                 }
                 JobOut { stats: st, viols: sink.take(), samples: vec![json!({"view":spec.name(),"prefixes":prefixes.len(),"tails":TAILS,"T":t,"pole":dynamics(&spec).0})] }
+            }));
+        }
+    }
+    // the self-normalised members on a tail twenty decades below the prefixes
+    for n in if quick { vec![2usize, 3, 5, 8, 16] } else { (2..=24).chain([32, 48, 64]).collect() } {
+        for spec in recursive_specs(n, true).into_iter().filter(|s| normalising(s.kind)) {
+            let unit = 2f64.powi(-70);
+            let prefixes: Vec<Vec<f64>> = pre_big.iter().cloned().chain([vec![1.0, -1.0, 1.0], vec![0.0, 3.0, 1.0, 2.0]]).collect();
+            let t = horizon_for(&spec, if quick { 1500 } else { 6000 }, 1e-14 * unit * 1e-6);
+            jobs.push(Box::new(move || {
+                let mut st = Stats::default();
+                let sink = Sink::new();
+                check_unit(&spec, &prefixes, t, unit, &mut st, &sink);
+                JobOut { stats: st, viols: sink.take(), samples: vec![json!({"view":spec.name(),"prefixes":prefixes.len(),"tails":"the three periodic tails x 2^-70","T":t})] }
             }));
         }
     }
